@@ -298,7 +298,7 @@ def make_decl():
         c = dict(locals())
         assume(1 <= n <= 3)
         for x in (id0, id1, id2):
-            assume(len(x) <= 9)
+            assume(len(x) <= 16)
         if n < 3:
             assume(len(id2) == 0)
         if n < 2:
